@@ -1292,7 +1292,16 @@ def add_invariant_checks(cls: ClassT) -> None:
             # finds one further along its method resolution order, could not be instantiated any more.
             # Instead, we give the class the constructor which it is lacking; it simply passes the call on.
             def __init__(self, *args, **kwargs):  # type: ignore
-                super(cls, self).__init__(*args, **kwargs)
+                next_init = super(cls, self).__init__
+                if (
+                    getattr(next_init, "__objclass__", None) is object
+                    and type(self).__new__ is not object.__new__
+                ):
+                    # ``object.__init__`` tolerates the arguments meant for an overridden ``__new__`` only
+                    # when ``__init__`` is not overridden; we must not make it reject them by being here.
+                    next_init()
+                else:
+                    next_init(*args, **kwargs)
 
             __init__.__qualname__ = "{}.__init__".format(cls.__qualname__)
             setattr(
